@@ -124,7 +124,7 @@ class QRModel:
         self.calls.append(rec)
         interp.call_log.append(("qr.fit", rec))
         plan = getattr(interp, "fault_plan", None)
-        if plan and plan.get("fail_call") == n_call:
+        if plan and (plan.get("fail_call") == n_call or n_call in plan.get("fail_calls", ())):
             kind = plan["kind"]
             if kind == "SolverError":
                 raise SymRaise(ExcVal("SolverError", ("solver failed",), ("cvxpy.error.SolverError", "Exception")))
